@@ -58,6 +58,20 @@ type Rec struct {
 	N int64
 }
 """),
+    ("several-names-in-one-field-declaration", """
+type Inner struct {
+	P, Q int64
+	R    *string `parquet:"r"`
+}
+
+type Rec struct {
+	A, B  int32
+	C, d  string
+	In    Inner
+	X, Y  *float64
+	Tags  []string
+}
+"""),
     ("untagged-and-mixed-case-tags", """
 type Inner struct {
 	CamelCase string
@@ -197,7 +211,7 @@ def register(PROPS):
         stages=[dict(test="TestC05", kind="enum", quick=1, thorough=1, timeout_thorough=5400)],
         replay="TestReplayC05",
         rule="programs: quick = every column context with <= 2 group ancestors realised as a minimal struct with a required earlier sibling where the context says 'later child' (258) + every 8th "
-             "shape of E1 + 47 composites + 3 hand-written programs whose feature is in the names (name-concatenation collision, one struct type used for three groups, untagged / mixed-case tags); thorough = E1 (all 1560 shapes with <= 2 children per struct and group depth <= 1) + E2 (3615 context structs: each ancestor r|o|p x first/later child x "
+             "shape of E1 + 47 composites + 4 hand-written programs whose feature the shape notation does not carry (name-concatenation collision, one struct type used for three groups, several names in one field declaration, untagged / mixed-case tags); thorough = E1 (all 1560 shapes with <= 2 children per struct and group depth <= 1) + E2 (3615 context structs: each ancestor r|o|p x first/later child x "
              "earlier sibling in {required, optional, repeated leaf, optional group}) + 1296 context structs with three group ancestors (required earlier sibling) + composites; leaf types rotate through the 8 primitives. Per program: parquetgen twice (byte-identical output), "
              "go build, then for up to 120 structurally distinct records (all of them when fewer; label value-space-complete) three workloads (one batch/large pages/uncompressed; two batches/page size 1/snappy; "
              "two batches/page size 3/gzip): read back == written, file valid under the C02 walker, column data == reference striping and reassembles. evaluations = records judged; every judged "
